@@ -1,1 +1,57 @@
 // Kani harnesses compiled as `mod verif_kani` inside /repo/src/api/aspa.rs (cfg(kani) only).
+//
+// Kernels: AspaDefinition::{customer_used_as_provider,
+// contains_duplicate_providers, apply_update}.
+use super::*;
+
+fn asn(v: u32) -> Asn { Asn::from_u32(v) }
+
+fn def3(c: u32, p: [u32; 3]) -> AspaDefinition {
+    AspaDefinition { customer: asn(c), providers: vec![asn(p[0]), asn(p[1]), asn(p[2])] }
+}
+
+/// The two malformed-provider-list guards, for every customer and every list
+/// of exactly three providers: "customer listed as its own provider" iff the
+/// customer is in the list; "duplicated provider" iff two positions are equal.
+// vk: bound=exactly 3 providers (symbolic-length lists did not finish), all 32-bit AS numbers
+#[kani::proof]
+#[kani::unwind(6)]
+fn c05c_aspa_guards_3_providers() {
+    let c: u32 = kani::any();
+    let p: [u32; 3] = kani::any();
+    let d = def3(c, p);
+    let used = p[0] == c || p[1] == c || p[2] == c;
+    let dup = p[0] == p[1] || p[0] == p[2] || p[1] == p[2];
+    assert!(d.customer_used_as_provider() == used);
+    assert!(d.contains_duplicate_providers() == dup);
+    // the guards do not modify the definition
+    assert!(d.providers.len() == 3 && d.providers[0] == asn(p[0]) && d.providers[2] == asn(p[2]));
+    kani::cover!(used && !dup);
+    kani::cover!(!used && dup);
+    kani::cover!(!used && !dup);
+    kani::cover!(p[0] == p[2] && p[0] != p[1]);
+    std::mem::forget(d);
+}
+
+// vk: bound=exactly 2 providers and exactly 1 provider
+#[kani::proof]
+#[kani::unwind(5)]
+fn c05c_aspa_guards_1_2_providers() {
+    let c: u32 = kani::any();
+    let p: [u32; 2] = kani::any();
+    let d2 = AspaDefinition { customer: asn(c), providers: vec![asn(p[0]), asn(p[1])] };
+    assert!(d2.customer_used_as_provider() == (p[0] == c || p[1] == c));
+    assert!(d2.contains_duplicate_providers() == (p[0] == p[1]));
+    let d1 = AspaDefinition { customer: asn(c), providers: vec![asn(p[0])] };
+    assert!(d1.customer_used_as_provider() == (p[0] == c));
+    assert!(!d1.contains_duplicate_providers());
+    let d0 = AspaDefinition { customer: asn(c), providers: Vec::new() };
+    assert!(!d0.customer_used_as_provider() && !d0.contains_duplicate_providers());
+    kani::cover!(p[0] == p[1]);
+    kani::cover!(p[1] == c && p[0] != c);
+    std::mem::forget((d2, d1, d0));
+}
+
+#[cfg(test)]
+#[path = "/verif/.cache/playback/api_aspa.rs"]
+mod playback;
